@@ -24,6 +24,8 @@ func init() {
 		ruleM7(c, "C19.M7")
 		ruleV3(c, "C19.M8")
 		ruleM9(c, "C19.M9")
+		// what the server announces must get past the decoder
+		ruleXdrBounds(c, "C19.M10", "args")
 	}
 }
 
@@ -101,6 +103,14 @@ func ruleM1(c *Ctx, id string) {
 				continue
 			}
 			found = true
+			// the side that refuses must say so: a length test whose "too long" side answers true accepts every name
+			refusing := br.True
+			if rop != br.Cond.Op {
+				refusing = br.False
+			}
+			if straightToBool(refusing, true) {
+				R.Fail(id, spec+"|the length test refuses", P.Pos(br.Block.Instrs[len(br.Block.Instrs)-1].Pos()), "the side of the length test on which the name is too long answers false", fmt.Sprintf("the side len %s %d answers true: a name longer than name_max (%d) is reported as stored (removed) although nothing was written", rop, k, adv))
+			}
 			R.Check(mx == adv, id, spec+"|accepts names up to the advertised length", P.Pos(br.Block.Instrs[len(br.Block.Instrs)-1].Pos()), fmt.Sprintf("the length test accepts exactly len <= name_max (%d)", adv), fmt.Sprintf("rejects len %s %d", br.Cond.Op, k), fmt.Sprintf("rejects len %s %d, i.e. accepts up to %d, but PATHCONF advertises %d: a name of the advertised length is refused (or a longer one accepted)", br.Cond.Op, k, mx, adv))
 		}
 		if !found {
@@ -535,7 +545,7 @@ func relatedAll(related func(ssa.Value) bool, vs []ssa.Value) bool {
 // not exceed the advertised wtmax.
 func ruleM6(c *Ctx, id string) {
 	V, P, R := c.V, c.P, c.R
-	R.Rule(id, "request-sized transactions fit in the log: every Inode.Write reached from a handler with a byte count taken from the request (a count field or the length of a request field) is dominated by a comparison of that quantity with a constant <= wtmax", 2)
+	R.Rule(id, "request-sized transactions fit in the log: every Inode.Write reached from a handler with a byte count taken from the request (a count field or the length of a request field) is dominated by a comparison of that quantity with a constant <= wtmax; every Inode.Read (it fills holes) gets such a count only bounded the same way or clamped", 3)
 	fi := c.fn(id, "nfs.(*Nfs).NFSPROC3_FSINFO")
 	if fi == nil || V.InodeWrite == nil {
 		return
@@ -624,6 +634,149 @@ func ruleM6(c *Ctx, id string) {
 	if n == 0 {
 		R.Fail(id, "handlers|request-sized writes", "", "WRITE and SYMLINK write a client-chosen number of bytes", "no Inode.Write with a request-derived count found in the handlers")
 	}
+	// READ: Inode.Read fills the holes it passes (it allocates and links a block per hole): a count taken from the
+	// request sizes a transaction too.  The count may be refused above a constant, or clamped: every way the
+	// request's own quantity reaches the call passes the side of a comparison on which it is <= a constant <= wtmax.
+	if V.InodeRead == nil {
+		return
+	}
+	bound := func(q string, req *ssa.Parameter) CondMatcherX {
+		return func(sub Subst) func(Cond) (bool, bool) {
+			return func(cd Cond) (bool, bool) {
+				if cd.X == nil || cd.Y == nil {
+					return false, false
+				}
+				op, a, b := cd.Op, cd.X, cd.Y
+				if _, isk := constIntDeep(a); isk {
+					op, a, b = flipOp(op), b, a
+				}
+				k, isk := constIntDeep(sub.resolve(b))
+				if !isk || k > wtmax || qkey(a, sub, req) != q {
+					return false, false
+				}
+				switch op {
+				case token.GTR:
+					return true, false
+				case token.LEQ:
+					return true, true
+				case token.GEQ:
+					return k-1 <= wtmax, false
+				case token.LSS:
+					return k-1 <= wtmax, true
+				}
+				return false, false
+			}
+		}
+	}
+	nr := 0
+	for _, h := range V.NfsProcs {
+		req := requestParam(h)
+		if req == nil {
+			continue
+		}
+		hsc := scopesOf(h)
+		scopeOf := func(fn *ssa.Function) *Scope {
+			for i := range hsc {
+				if hsc[i].Fn == fn {
+					return &hsc[i]
+				}
+			}
+			return nil
+		}
+		for _, sc := range hsc {
+			for _, call := range P.CallsIn(sc.Fn, funcIs(V.InodeRead)) {
+				cc := callCommon(call)
+				if cc == nil || len(cc.Args) < 4 {
+					continue
+				}
+				// the ways the count can be the request's own quantity
+				type leaf struct {
+					q        string
+					ok       bool
+					from, to *ssa.BasicBlock
+				}
+				var leaves []leaf
+				seen := map[ssa.Value]bool{}
+				var walk func(v ssa.Value, cur Scope, from, to *ssa.BasicBlock, d int)
+				walk = func(v ssa.Value, cur Scope, from, to *ssa.BasicBlock, d int) {
+					rv := cur.S.resolve(stripConv(v))
+					if rv == nil || d > 8 {
+						return
+					}
+					// the value may live in an enclosing scope
+					if in, isI := rv.(ssa.Instruction); isI && in.Parent() != cur.Fn {
+						if s2 := scopeOf(in.Parent()); s2 != nil {
+							from, to = nil, nil
+							if cur.Via != nil && cur.Via.Parent() == s2.Fn {
+								from, to = cur.Via.Block(), cur.Via.Block()
+							}
+							cur = *s2
+						}
+					}
+					if ph, isP := rv.(*ssa.Phi); isP {
+						if seen[rv] {
+							return
+						}
+						seen[rv] = true
+						for i, e := range ph.Edges {
+							walk(e, cur, ph.Block().Preds[i], ph.Block(), d+1)
+						}
+						return
+					}
+					if cl, isC := rv.(*ssa.Call); isC {
+						if g := staticCallee(cl); g != nil && g.Name() == "Min" && len(cl.Call.Args) == 2 {
+							for _, a := range cl.Call.Args {
+								if k, isk := constIntDeep(cur.S.resolve(a)); isk && k <= wtmax {
+									return // min(q, K)
+								}
+							}
+						}
+					}
+					q := qkey(rv, cur.S, req)
+					if q == "" {
+						return
+					}
+					lf := leaf{q: q, from: from, to: to}
+					if from != nil && to != nil && from != to {
+						lf.ok = edgeGuardedX(cur.Fn, from, to, bound(q, req), cur.S, 0)
+					} else {
+						at := call.Block()
+						if from != nil {
+							at = from
+						}
+						lf.ok = guardedUp(hsc, cur, at, bound(q, req))
+					}
+					leaves = append(leaves, lf)
+				}
+				walk(cc.Args[3], sc, nil, nil, 0)
+				byQ := map[string]bool{}
+				for _, lf := range leaves {
+					if prev, had := byQ[lf.q]; had {
+						byQ[lf.q] = prev && lf.ok
+					} else {
+						byQ[lf.q] = lf.ok
+					}
+				}
+				for _, q := range keysOf2(byQ) {
+					nr++
+					R.Analysed[FuncName(h)] = true
+					R.Check(byQ[q], id, fmt.Sprintf("%s|Read sized by %s is bounded", h.Name(), q), P.Pos(call.Pos()), fmt.Sprintf("the request quantity %s reaches Inode.Read only where it is <= a constant <= wtmax (%d): refused above it, or clamped", q, wtmax), "guarded on every way", fmt.Sprintf("the client chooses how many bytes (%s) one READ covers and nothing bounds it: Inode.Read allocates a block for every hole it passes, so a READ over a large hole is a transaction larger than the log - the journal refuses it, and after a refused commit COMMIT flushes nothing and still answers OK: acknowledged unstable data is lost by a crash", q))
+				}
+			}
+		}
+	}
+	if nr == 0 {
+		R.Fail(id, "handlers|request-sized reads", "", "READ reads a client-chosen number of bytes", "no Inode.Read with a request-derived count found in the handlers")
+	}
+}
+
+func keysOf2(m map[string]bool) []string {
+	var out []string
+	for k := range m {
+		out = append(out, k)
+	}
+	sort.Strings(out)
+	return out
 }
 
 // ruleM7: the maximum file size the server announces (and enforces) must not
@@ -658,12 +811,16 @@ func ruleM7(c *Ctx, id string) {
 
 // straightToFalse: from b a return of the constant false is reached without
 // passing another test.
-func straightToFalse(b *ssa.BasicBlock) bool {
+func straightToFalse(b *ssa.BasicBlock) bool { return straightToBool(b, false) }
+
+// straightToBool: the block goes (through jumps only) to a return of the
+// constant want, directly or as the phi edge of a shared return block.
+func straightToBool(b *ssa.BasicBlock, want bool) bool {
 	for i := 0; i < 4 && b != nil; i++ {
 		switch x := b.Instrs[len(b.Instrs)-1].(type) {
 		case *ssa.Return:
 			for _, r := range x.Results {
-				if bv, isb := constBool(r); isb && !bv {
+				if bv, isb := constBool(r); isb && bv == want {
 					return true
 				}
 				// a shared return fed by a phi: the value coming from b's chain is not known here
@@ -671,13 +828,13 @@ func straightToFalse(b *ssa.BasicBlock) bool {
 			return false
 		case *ssa.Jump:
 			nb := b.Succs[0]
-			// a shared return block whose phi takes false along this edge
+			// a shared return block whose phi takes the constant along this edge
 			if r, ok := nb.Instrs[len(nb.Instrs)-1].(*ssa.Return); ok {
 				for _, res := range r.Results {
 					if ph, isP := res.(*ssa.Phi); isP && ph.Block() == nb {
 						for j, p := range nb.Preds {
 							if p == b {
-								if bv, isb := constBool(ph.Edges[j]); isb && !bv {
+								if bv, isb := constBool(ph.Edges[j]); isb && bv == want {
 									return true
 								}
 							}
